@@ -1,0 +1,16 @@
+//go:build verif
+
+package docx
+
+// Contracts for gocv (comment-only; see /verif/DESIGN.md).  No executable code.
+
+// ---- C15: every ATX heading has between 1 and 6 '#' ----
+//@ func (*Reader) MarkdownWithOptions
+//@   property C15
+//@   flags callsites
+//@   callsite strings.Repeat(s, count) requires level_1_to_6: s == "#" ==> 1 <= count && count <= 6
+
+//@ func (*Reader) MarkdownWithRAGOptions
+//@   property C15
+//@   flags callsites
+//@   callsite strings.Repeat(s, count) requires level_1_to_6: s == "#" ==> 1 <= count && count <= 6
